@@ -84,10 +84,13 @@ class SyntaxPass(object):
         self.skipped[what] = self.skipped.get(what, 0) + 1
 
     def add(self, kind, scope, name, line, col, module=''):
+        # a comprehension variable is local to the comprehension: the global declarations of the
+        # enclosing scope never apply to it (CPython symtable)
+        decl = kind != 'comp'
         self.bindings.append({
             'kind': kind, 'own': scope.kind, 'parent': scope.parent.kind if scope.parent else None,
-            'name': name, 'module': module, 'glob': name in scope.globals,
-            'gseen': name in scope.globals_seen, 'scope': scope.id, 'line': line, 'col': col})
+            'name': name, 'module': module, 'glob': decl and name in scope.globals,
+            'gseen': decl and name in scope.globals_seen, 'scope': scope.id, 'line': line, 'col': col})
 
     def collect_globals(self, body, scope):
         """`global` declarations of this scope (not of nested def/class/lambda)."""
@@ -621,11 +624,17 @@ class Gen(object):
         r = self.rng
         k = r.random()
         a, ra = self.ident()
-        if k < 0.6:
+        if k < 0.55:
             return a, [(a, ra)]
+        if k < 0.62:
+            # names beside subscript / attribute targets (which bind no name themselves)
+            return r.choice(['zqd[0], %s', '%s, zqd[zqk]', 'zqo.attr, %s', '[zqd["k"], %s]', '*%s, zqo.attr']) % a, [(a, ra)]
         b, rb = self.ident()
         if k < 0.8:
             return '%s, %s' % (a, b), [(a, ra), (b, rb)]
+        if k < 0.87:
+            return r.choice(['[%s, zqd[zqk], %s]', '%s, zqo.attr, %s', 'zqd[0], (%s, zqo.attr, %s)', '(zqo.a, %s), zqd[1], *%s']) % (a, b), \
+                [(a, ra), (b, rb)]
         c, rc = self.ident()
         return r.choice(['%s, (%s, *%s)', '[%s, %s, %s]', '(%s, %s), %s']) % (a, b, c), [(a, ra), (b, rb), (c, rc)]
 
@@ -683,7 +692,8 @@ class Gen(object):
             return [ind + '%s = ()' % t] + self.reads_of(ind, names)
         if k == 'annassign':
             nm, rd = self.ident()
-            return [ind + '%s: int = 0' % nm] + self.reads_of(ind, [(nm, rd)])
+            return [ind + r.choice(['%s: int = 0', '%s: int = 0', '(%s): int = 0', '(%s): "zqT" = (0)']) % nm] + \
+                self.reads_of(ind, [(nm, rd)])
         if k == 'walrus':
             nm, rd = self.ident()
             form = r.choice(['(%s := 0)', 'if (%s := 0): pass', 'zqfn(%s := 0)'])
@@ -773,6 +783,13 @@ class Gen(object):
             out = [ind + line]
             if rd:
                 out += self.use(ind, nm, dotted=True)
+            # other imports of the same package beside the dotted one: the dotted-import exemption is
+            # about the BOUND name, not about the package these come from
+            for _ in range(r.choice([0, 0, 1, 2, 3])):
+                n2, r2 = self.ident()
+                form = r.choice(['from %s import %s', 'import %s as %s', 'from %s.sub import %s', 'import %s.sub as %s',
+                                 'from %s import zqm as %s'])
+                out += [ind + form % (nm, n2)] + self.reads_of(ind, [(n2, r2)])
             return out
         if k == 'from':
             parts = []
@@ -836,7 +853,10 @@ class Gen(object):
             if r.random() < 0.7:
                 out = [ind + 'def %s():' % f_, i2 + 'global %s' % nm,
                        i2 + r.choice(['%s = 0', 'import %s', 'def %s(): pass', 'for %s in (): pass']) % nm]
-                inner = [[i2 + 'def %s(%s): pass' % (g_, nm)],
+                inner = [[i2 + '[0 for %s in ()]' % nm],
+                         [i2 + 'zqs = {0 for zqa, %s in ()}' % nm],
+                         [i2 + 'class %s:' % c_, i3 + 'global %s' % nm, i3 + 'zqz = [0 for %s in ()]' % nm],
+                         [i2 + 'def %s(%s): pass' % (g_, nm)],
                          [i2 + 'def %s(zqa, *%s): pass' % (g_, nm)],
                          [i2 + 'zqh = lambda %s: 0' % nm],
                          [i2 + 'zqh = lambda: [0 for %s in ()]' % nm],
@@ -1009,6 +1029,13 @@ HAND = [
     'try:\n    import json\nexcept ImportError:\n    import pickle as json\n\nif len("x"):\n    import marshal as ser\nelse:\n    import shelve as ser\n\nimport os\n\n\ndef snapshot():\n    return locals()\n',
     'def f():\n    if c:\n        x = 1\n    else:\n        x = 2\n    y = 3\ndef g():\n    z = 4\n    return locals()\nclass K:\n    import os\n    def m(self):\n        w = 5\n        return lambda: locals()\n',
     'import os\nif c:\n    import a as x\nelse:\n    import b as x\nlocals()\ndef f(p):\n    q = 1\n',
+    # round 3: parenthesised annotated target; names beside subscript/attribute targets; other imports of a
+    # package that is used through a dotted import; comprehension variable named like a declared global
+    'def f():\n    (b): int = 2\n    c: int = 3\nclass K:\n    (d): int = 4\n    def m(self):\n        (e): "T" = (5)\n',
+    'def f(pair, t, d, k, o):\n    d["k"], v = pair\n    [a, d[k], b] = t\n    o.x, w = pair\n    for o.y, i in (): pass\n    for d[0], j in (): pass\n    with o as (o.z, m): pass\n    return [0 for d[1], n in ()], pair, t, k\n',
+    'import logging.config\nlogging.config.f()\nfrom logging import getLogger\nimport logging as log\nfrom logging.config import x\nimport logging.config as lc\nclass A:\n    from logging import y\n    import logging as z\n',
+    'import a.b\ndef f():\n    return a.b.c\nfrom a import p\nimport a as q\n',
+    'def f():\n    global X\n    X = 1\n    return [0 for X in ()]\nclass K:\n    global Y\n    z = [0 for Y in ()]\ndef g():\n    global Z\n    return {0 for q, Z in ()}\n',
     # a global declaration is not inherited by nested scopes
     'def configure(items):\n    global registry\n    registry = {}\n\n    def reset():\n        registry = []\n        return items\n\n    def update(registry):\n        return items\n\n    take = lambda registry: items\n    return reset, update, take\n',
     'def f():\n    global X\n    X = 1\n    def g(X): pass\n    h = lambda X: 0\n    def k():\n        X = 2\n    class C:\n        X = 3\n        def m(self, X): pass\n',
